@@ -2,6 +2,7 @@
 """Regenerates section 8.5 of DESIGN.md (which checks catch which seeded regressions / hand mutants)."""
 import glob, json, os, re
 rows = []
+ncaught = 0
 for d in sorted(glob.glob('/verif/seeded/*/')):
     name = os.path.basename(d.rstrip('/'))
     try: m = json.load(open(d + 'meta.json'))
@@ -13,6 +14,7 @@ for d in sorted(glob.glob('/verif/seeded/*/')):
     first_missed = sorted(set(h['check'] for h in hist if h['verdict'] != 'caught' and h['check'] in caught))
     summ = (m.get('summary') or '').replace('|', '/').replace('\n', ' ')
     if len(summ) > 230: summ = summ[:227] + '...'
+    ncaught += 1 if caught else 0
     note = ''
     if first_missed: note = ' (first missed by %s; caught after strengthening)' % ', '.join(first_missed)
     if m.get('lead_note'): note += ' (' + m['lead_note'] + ')'
@@ -26,7 +28,7 @@ if os.path.exists(p):
         j = json.loads(l); seen[j['name']] = j
     for n, j in seen.items():
         hm.append('| %s | %s | %s |' % (n, j['file'], ', '.join('%s:%s' % (c, v) for c, v in j['results'].items())))
-sec = '\n### 8.5 Sensitivity: which checks catch which changes\n\nIndependently written regressions (fresh sub-agents given only the property text and a scratch worktree; each confirmed by the lead with `tools/seedcheck.py`: applies, builds, unedited suite of the touched packages passes, demonstration fails with the change and passes without it). %d seeds, %d caught by the quick tier of at least one check.\n\n' % (len(rows), sum(1 for r in rows if '| - |' not in r.split('|')[4] + '|' and r.split('|')[4].strip() != '-')) + '\n'.join(tab) + '\n\nHand-made mutants of the lead\'s own checks (`tools/mutants.py`, quick tier; per-package mutants of the other checks are listed with one-line diffs in `notes/<pkg>.md`):\n\n| mutant | file | result |\n|---|---|---|\n' + '\n'.join(hm) + '\n'
+sec = '\n### 8.5 Sensitivity: which checks catch which changes\n\nIndependently written regressions (fresh sub-agents given only the property text and a scratch worktree; each confirmed by the lead with `tools/seedcheck.py`: applies, builds, unedited suite of the touched packages passes, demonstration fails with the change and passes without it). %d seeds, %d caught by the quick tier of at least one check.\n\n' % (len(rows), ncaught) + '\n'.join(tab) + '\n\nHand-made mutants of the lead\'s own checks (`tools/mutants.py`, quick tier; per-package mutants of the other checks are listed with one-line diffs in `notes/<pkg>.md`):\n\n| mutant | file | result |\n|---|---|---|\n' + '\n'.join(hm) + '\n'
 s = open('/verif/DESIGN.md').read()
 i = s.find('\n### 8.5 Sensitivity')
 if i >= 0:
